@@ -72,17 +72,31 @@ def make_market(days, spec):
 
 
 def write_market(directory, market):
+    """symbols ending in '@2' belong to a SECOND data source (directory/src2), listed after the first one"""
+    import os
     for sym, rows in market.items():
-        mk.write_csv(directory, sym, [(r[0], None if r[1] is None else float(r[1]), None if r[2] is None else float(r[2]),
-                                       None if r[2] is None else float(r[2])) + tuple(r[3:4]) for r in rows])
+        target = directory
+        name = sym
+        if sym.endswith('@2'):
+            target = os.path.join(directory, 'src2')
+            os.makedirs(target, exist_ok=True)
+            name = sym[:-2]
+        mk.write_csv(target, name, [(r[0], None if r[1] is None else float(r[1]), None if r[2] is None else float(r[2]),
+                                     None if r[2] is None else float(r[2])) + tuple(r[3:4]) for r in rows])
 
 
 def load_handler(directory, market, universe=None):
+    import os
     from qstrader.data.backtest_data_handler import BacktestDataHandler
+    first = sorted(k for k in market if not k.endswith('@2'))
+    second = sorted(k[:-2] for k in market if k.endswith('@2'))
     with warnings.catch_warnings():
         warnings.simplefilter('ignore')
-        src = mk.load_source(directory, sorted(market.keys()), adjust=True)
-    return BacktestDataHandler(universe, data_sources=[src]), src
+        src = mk.load_source(directory, first, adjust=True)
+        sources = [src]
+        if second:
+            sources.append(mk.load_source(os.path.join(directory, 'src2'), second, adjust=True))
+    return BacktestDataHandler(universe, data_sources=sources), src
 
 
 def price_at(market, sym, t):
@@ -275,14 +289,21 @@ def run_session(cfg, handler, universe=None, fresh=True):
         def __getattr__(self, name):
             return getattr(pcm, name)
     session.qts.portfolio_construction_model = PcmProxy()
-    with warnings.catch_warnings():
+    import contextlib
+    import io
+    from qstrader import settings as _settings
+    with warnings.catch_warnings(), contextlib.redirect_stdout(io.StringIO()):
         warnings.simplefilter('ignore')
+        if cfg.get('print_events'):
+            _settings.set_print_events(True)       # the library default: every event is printed (output discarded here)
         try:
             session.run()
             obs.allocs = list(session.target_allocations)
         except Exception as e:  # noqa
             obs.error = (type(e).__name__, str(e), str(cur['dt']))
             obs.allocs = list(allocs)
+        finally:
+            _settings.set_print_events(False)
     obs.equity = list(session.equity_curve)
     obs.history = [(h.dt, h.type, h.description, h.debit, h.credit, h.balance) for h in port.history]
     obs.cash = session.broker.get_portfolio_cash_balance(pid)
